@@ -49,13 +49,14 @@ inductive PyVal (α : Type) where
 
 abbrev PyDict (α : Type) := List (String × PyVal α)
 
-def PyDict.get {α : Type} (d : PyDict α) (k : String) : PyVal α :=
-  match d.find? (fun p => p.1 == k) with
-  | some p => p.2
-  | none => .str "KeyError"
+def PyDict.get {α : Type} : PyDict α → String → PyVal α
+  | [], _ => .str "KeyError"
+  | (k', v') :: d, k => if k' == k then v' else PyDict.get d k
 
-def PyDict.set {α : Type} (d : PyDict α) (k : String) (v : PyVal α) : PyDict α :=
-  if d.any (fun p => p.1 == k) then d.map (fun p => if p.1 == k then (k, v) else p) else d ++ [(k, v)]
+/-- `d[k] = v`: replace the entry of an existing key in place, append a new key at the end (dict insertion order) -/
+def PyDict.set {α : Type} : PyDict α → String → PyVal α → PyDict α
+  | [], k, v => [(k, v)]
+  | (k', v') :: d, k, v => if k' == k then (k, v) :: d else (k', v') :: PyDict.set d k v
 
 def PyVal.toNum {α : Type} [Transc α] : PyVal α → α
   | .num x => x
